@@ -119,12 +119,17 @@ ArenaAlloc(bytes, al) ==
   /\ LET mis   == AMod(parena, al)
          pad   == IF mis # 0 THEN al - mis ELSE 0
          avail == XS("arena", narena - pstack)
+         \* how padding and bytes relate to the free space (exact): the replay must contain every class, in particular
+         \* "sum": padding > 0, padding and bytes each fit but not together
+         free  == narena - pstack - parena
+         rel   == IF pad + bytes <= free THEN "fit" ELSE IF bytes > free THEN "bytes"
+                  ELSE IF pad > free THEN "pad" ELSE "sum"
      IN IF XS("arena", parena + pad + bytes) > avail
         THEN /\ UNCHANGED <<parena, live>>
-             /\ ev' = [op |-> "aalloc", size |-> bytes, al |-> al, st |-> "null", ret |-> 0]
+             /\ ev' = [op |-> "aalloc", size |-> bytes, al |-> al, st |-> "null", ret |-> 0, rel |-> rel]
         ELSE /\ parena' = XS("arena", parena + pad + bytes)
              /\ live' = IF bytes = 0 THEN live ELSE live \cup {Block(Base + parena + pad, bytes, "arena", al)}
-             /\ ev' = [op |-> "aalloc", size |-> bytes, al |-> al, st |-> "ok", ret |-> parena + pad]
+             /\ ev' = [op |-> "aalloc", size |-> bytes, al |-> al, st |-> "ok", ret |-> parena + pad, rel |-> rel]
 
 ArenaClear ==
   /\ Step /\ ~lock /\ parena > 0
@@ -268,6 +273,8 @@ S_3 == {3, 24, M - 7}
 A_8 == {8}
 A_1_8 == {1, 8}
 S_0_50 == 0..50
+S_0_20 == 0..20
+C_pad == {<<20, 0>>}
 S_replay3 == {0, 3, 8, 24, 72} \cup {M - 1, M - 7, M - 8, M - 64}
 S_small  == {0, 1, 3, 5, 8, 16, 24, 33, 40, 64, 72, 100, 160}
 S_near   == {1, 8, 24, 100} \cup {M - k : k \in 1..9} \cup {M - 24, M - 64, M - 65, M - 97, M - 100}
